@@ -127,6 +127,26 @@ func main() {
 			}
 		}
 	}
+	// bases that start with a tilde are directory names like any other, whatever $HOME says
+	saved := bases
+	bases = []string{"~", "~/pub", "~user/x", "./~", "~/../x"}
+	home, hadHome := os.LookupEnv("HOME")
+	for _, h := range []string{"", "/home/somebody", "UNSET"} {
+		if h == "UNSET" {
+			os.Unsetenv("HOME")
+		} else {
+			os.Setenv("HOME", h)
+		}
+		for _, p := range []string{"", "/", "/a", "a/b", "/..", "/../../etc/passwd", "/a/../..", "//", "/./a"} {
+			check(p)
+		}
+	}
+	if hadHome {
+		os.Setenv("HOME", home)
+	} else {
+		os.Unsetenv("HOME")
+	}
+	bases = saved
 	for _, p := range []string{"%2e%2e/x", "..%2f", "a/../../../../../etc/passwd", "/..", "....//", "/a/b/../../../c", "\x00/..", "..\\..\\x"} {
 		check(p)
 	}
